@@ -19,6 +19,10 @@ for d in sorted(os.listdir(SEEDED)):
     if only and d not in only and d.split("-")[0] not in only:
         continue
     meta = json.load(open(meta_p))
+    if meta.get("obsolete"):
+        out[d] = {"property": meta["property"], "obsolete": True, "detected": None, "with_failing_input": None,
+                  "what_the_check_reported": "(no longer a violation on the repaired tree: see meta.json)"}
+        continue
     prop = meta["property"]
     patch = os.path.join(SEEDED, d, "patch.diff")
     subprocess.run(["git", "-C", "/repo", "checkout", "--", "."], check=True)
